@@ -880,6 +880,11 @@ func TestC07(t *testing.T) {
 					do(hop{kind: "rebuild", h: 0})
 					do(hop{kind: "count", h: 0})
 				}
+				if k%3 == 2 {
+					// ... the same with inner nodes of a caller-defined type in the rebuilt tree
+					do(hop{kind: "rebuildf", h: 0})
+					do(hop{kind: "count", h: 0})
+				}
 				hg := &histGen{g: g, r: g.r}
 				for m := 0; m < 6; m++ {
 					// pick a target handle: the root or a (nested) sub-view
